@@ -273,6 +273,9 @@ pub enum FOp {
     GaloisMany { seed: bool, count: usize },
     /// key-switching key towards a freshly generated secret key
     KSwitch { seed: bool },
+    /// a second key generator built around the existing secret key (KeyGenerator::from_sk, as after
+    /// restoring a key or update_secret_key) generates a public key and relinearization keys
+    FromSk { seed: bool },
     EncPk { zero: bool },
     EncSym { seeded: bool, zero: bool },
     /// two symmetric encryptions handed generators created from the same explicit seed
@@ -294,6 +297,7 @@ fn fop_json(o: &FOp) -> Value {
         FOp::Galois { seed, elt } => json!({"galois": seed, "elt": elt}),
         FOp::GaloisMany { seed, count } => json!({"galois-many": seed, "count": count}),
         FOp::KSwitch { seed } => json!({"kswitch": seed}),
+        FOp::FromSk { seed } => json!({"from-sk": seed}),
         FOp::EncPk { zero } => json!({"enc-pk-zero": zero}),
         FOp::EncSym { seeded, zero } => json!({"enc-sym-seeded": seeded, "zero": zero}),
         FOp::EncSymSameState { seed } => json!({"enc-sym-same-state": seed}),
@@ -324,6 +328,9 @@ fn fop_from(v: &Value) -> Option<FOp> {
     }
     if let Some(x) = o.get("kswitch") {
         return Some(FOp::KSwitch { seed: x.as_bool()? });
+    }
+    if let Some(x) = o.get("from-sk") {
+        return Some(FOp::FromSk { seed: x.as_bool()? });
     }
     if let Some(s) = o.get("enc-pk-zero") {
         return Some(FOp::EncPk { zero: s.as_bool()? });
@@ -556,6 +563,17 @@ fn exec_fop(op: &FOp, sh: &FShared, rng: &mut Prng) -> Produced {
             if w.uses_keyswitching() {
                 let other = KeyGenerator::new(ctx.clone());
                 ks(&w.keygen.create_keyswitching_key(other.secret_key(), *seed), &mut p);
+            }
+        }
+        FOp::FromSk { seed } => {
+            let kg = KeyGenerator::from_sk(ctx.clone(), w.sk.clone());
+            let k = kg.create_public_key(*seed);
+            p.masks.push(mask_hash(k.as_ciphertext(), ctx));
+            if let Some(s) = seed_words(k.as_ciphertext()) {
+                p.seeds.push(s);
+            }
+            if w.uses_keyswitching() {
+                ks(kg.create_relin_keys(*seed).as_kswitch_keys(), &mut p);
             }
         }
         FOp::EncPk { zero } => {
@@ -908,7 +926,7 @@ fn gen_fscn(rng: &mut Prng, run_seed: u64, real_entropy: bool) -> Option<FScn> {
             (0..nops)
                 .map(|k| match if big_keys && t == 0 && k == 0 { 13 } else { rng.below(15) } {
                     13 => FOp::GaloisMany { seed: rng.coin(), count: if rng.chance(1, 4) { 0 } else if big_keys { rng.range(n / 4, n - 1) } else { rng.range(2, n - 1) } },
-                    14 => FOp::KSwitch { seed: rng.coin() },
+                    14 => if rng.coin() { FOp::KSwitch { seed: rng.coin() } } else { FOp::FromSk { seed: rng.coin() } },
                     12 => FOp::MixedSeedSaving { seed: rng.next_u64() >> 1 },
                     11 => FOp::ExpandAcross,
                     0 => FOp::NewKeygen,
